@@ -286,6 +286,17 @@ func (fc *FnCtx) trModel(st *State, call *ast.CallExpr, fn *types.Func, recvExpr
 			return nil, true
 		case "Flush":
 			return []Val{intVal("0")}, true
+		case "UnreadByte":
+			// fails unless the last operation was a successful read; after the buffer has been
+			// drained (WriteTo) it always fails. Modelled: empty content => error.
+			e := fc.freshVal(st, "unreaderr", SInt, nil)
+			st.addAssume("(=> (= (slen " + cur.T + ") 0) (not (= " + e.T + " 0)))")
+			return []Val{e}, true
+		case "ReadByte":
+			e := fc.freshVal(st, "readerr", SInt, nil)
+			bv := fc.freshVal(st, "readbyte", SInt, types.Typ[types.Uint8])
+			st.addAssume("(=> (= (slen " + cur.T + ") 0) (not (= " + e.T + " 0)))")
+			return []Val{bv, e}, true
 		case "WriteTo":
 			vs := args()
 			if vs[0].S == SBuf {
